@@ -1,1 +1,97 @@
-From TL Require Import Base.Base.
+(* C14 - Equality predicates and hash tables are coherent.                  *)
+(* Statements only; the proofs are in Proofs/Equality.v.                     *)
+From TL Require Import Base.Base Model.Reader Model.Printer Model.Store Model.Eval Model.Init.
+From TL Require Import Proofs.Equality.
+
+(* equal: symmetric; reflexive on values without NaN; structural *)
+Theorem C14_equal_symmetric : forall F, (forall x y, f_eq F x y = f_eq F y x) ->
+  forall a b, equal F a b = equal F b a.
+Proof. exact equal_sym. Qed.
+Theorem C14_equal_reflexive : forall F a, no_nan F a -> equal F a a = true.
+Proof. exact equal_refl. Qed.
+Theorem C14_equal_strings_by_content : forall F x y, equal F (Str x) (Str y) = true <-> x = y.
+Proof. exact equal_string. Qed.
+Theorem C14_equal_integers_by_value : forall F x y, equal F (Int x) (Int y) = true <-> x = y.
+Proof. exact equal_int. Qed.
+Theorem C14_equal_lists_elementwise : forall F a d a' d',
+  equal F (Cons a d) (Cons a' d') = equal F a a' && equal F d d'.
+Proof. exact equal_cons. Qed.
+Theorem C14_equal_list_vs_atom : forall F a d x, consp x = false -> equal F (Cons a d) x = false.
+Proof. exact equal_cons_atom. Qed.
+Theorem C14_equal_numbers_by_value : forall F x y,
+  equal F (Int x) (Flt y) = f_eq F (f_of_int F x) y.
+Proof. exact equal_int_float. Qed.
+
+(* eq implies equal *)
+Theorem C14_eq_implies_equal : forall F a b, no_nan F a ->
+  eq_model a b = Some true -> equal F a b = true.
+Proof. exact eq_implies_equal. Qed.
+
+(* interning the same name gives eq symbols, different names different     *)
+(* symbols; make-symbol / gensym symbols are eq to nothing else             *)
+Theorem C14_intern_same : forall n, eq_model (Sym n) (Sym n) = Some true.
+Proof. exact intern_same. Qed.
+Theorem C14_intern_distinct : forall n m, n <> m -> eq_model (Sym n) (Sym m) = Some false.
+Proof. exact intern_distinct. Qed.
+Theorem C14_uninterned_not_interned : forall n i m, eq_model (USym n i) (Sym m) = Some false.
+Proof. exact uninterned_never_interned. Qed.
+Theorem C14_uninterned_distinct : forall n i m j, i <> j -> eq_model (USym n i) (USym m j) = Some false.
+Proof. exact uninterned_distinct. Qed.
+Theorem C14_fresh_serials : forall s,
+  let '(r1, s1) := fresh_id s in
+  let '(r2, _) := fresh_id s1 in
+  exists i j, r1 = Ok i /\ r2 = Ok j /\ i <> j.
+Proof. exact fresh_ids_distinct. Qed.
+
+(* the hash table is a finite map keyed by eql (keys: integers, floats by  *)
+(* bit pattern, symbols, nil, t - the keys whose identity the pure model     *)
+(* decides): after ANY sequence of puthash, gethash returns the value most   *)
+(* recently stored under an eql key, nil otherwise                           *)
+Theorem C14_gethash_after_puthash : forall l k v k', akeys l -> akey k = true -> akey k' = true ->
+  forall l', ht_put l k v = Ok l' ->
+  ht_find l' k' = if keq k k' then Ok v else ht_find l k'.
+Proof. exact find_put. Qed.
+Theorem C14_finite_map : forall ops l k, akeys ops -> akey k = true ->
+  puts [] ops = Ok l ->
+  ht_find l k = Ok (match latest ops k with Some v => v | None => Nil end).
+Proof.
+  intros ops l k Ho Hk Hp. rewrite (puts_spec ops [] l k (Forall_nil _) Ho Hk Hp).
+  destruct (latest ops k); reflexivity.
+Qed.
+Theorem C14_puthash_total : forall ops, akeys ops -> exists l, puts [] ops = Ok l.
+Proof. intros ops H. apply puts_total; [constructor|assumption]. Qed.
+(* the key equality is an equivalence: 1 and 1.0 are different keys *)
+Theorem C14_key_equivalence :
+  (forall a, akey a = true -> keq a a = true) /\
+  (forall a b, akey a = true -> akey b = true -> keq a b = keq b a) /\
+  (forall a b, akey a = true -> akey b = true -> keq a b = true ->
+     forall c, akey c = true -> keq a c = keq b c) /\
+  keq (Int 1) (Flt 1) = false.
+Proof. split; [exact keq_refl|split; [exact keq_sym|split; [exact keq_eq|reflexivity]]]. Qed.
+
+Print Assumptions C14_equal_symmetric. Print Assumptions C14_equal_reflexive.
+Print Assumptions C14_equal_strings_by_content. Print Assumptions C14_equal_integers_by_value.
+Print Assumptions C14_equal_lists_elementwise. Print Assumptions C14_equal_list_vs_atom.
+Print Assumptions C14_equal_numbers_by_value. Print Assumptions C14_eq_implies_equal.
+Print Assumptions C14_intern_same. Print Assumptions C14_intern_distinct.
+Print Assumptions C14_uninterned_not_interned. Print Assumptions C14_uninterned_distinct.
+Print Assumptions C14_fresh_serials. Print Assumptions C14_gethash_after_puthash.
+Print Assumptions C14_finite_map. Print Assumptions C14_puthash_total.
+Print Assumptions C14_key_equivalence.
+
+Definition F0 : fops :=
+  {| f_add := fun _ _ => 0%Z; f_sub := fun _ _ => 0%Z; f_mul := fun _ _ => 0%Z;
+     f_div := fun _ _ => 0%Z; f_rem := fun _ _ => 0%Z; f_pow := fun _ _ => 0%Z;
+     f_max := fun _ _ => 0%Z; f_min := fun _ _ => 0%Z; f_of_int := fun z => z;
+     f_to_int := fun z => z; f_round := fun z => z; f_trunc := fun z => z;
+     f_lt := Z.ltb; f_le := Z.leb; f_eq := Z.eqb; f_is_finite := fun _ => true;
+     f_to_dec := fun _ => []; f_of_dec := fun _ => None |}.
+Definition ev0 (p : string) := fst (eval_string F0 80 (s2t p) (init_state [] None)).
+Example C14_ex :
+  ev0 "(setq h (make-hash-table)) (puthash 'a 1 h) (puthash 2 'x h) (puthash 'a 3 h) (list (gethash 'a h) (gethash 2 h) (gethash 'b h) (eq 'a 'a) (eq (make-symbol ""a"") 'a) (equal '(1 (2 . ""s"")) '(1 (2 . ""s""))) (eq nil nil))"
+  = ev0 "'(3 x nil t nil t t)".
+Proof. vm_compute. reflexivity. Qed.
+
+Check C14_finite_map : forall ops l k, akeys ops -> akey k = true ->
+  puts [] ops = Ok l ->
+  ht_find l k = Ok (match latest ops k with Some v => v | None => Nil end).
